@@ -680,7 +680,10 @@ Lemma close_table_cell_good v e ks s : Inv s -> good Inv (close_table_cell v e k
 Proof.
   intro H. unfold close_table_cell.
   apply good_bind with (Q := any); [nce_tac|]. intros pr _. cbv zeta.
+  (* the two early returns of the repaired _close_table_cell *)
+  destruct (c_tree s) as [|tb0 root0] eqn:Eroot0; [exact H|]. rewrite <- Eroot0.
   apply good_bind with (Q := any); [nce_tac|]. intros rows0 _.
+  destruct rows0 as [|rb0 rows1] eqn:Erows1; [exact H|]. rewrite <- Erows1.
   apply good_bind with (Q := any); [nce_tac|]. intros _ _.
   apply good_bind with (Q := Inv).
   { match goal with |- good Inv (if ?c then _ else _) => destruct c end; [|exact H].
@@ -718,9 +721,9 @@ Proof.
   apply good_bind with (Q := fun root' => Inv (set_tree root' sa)).
   2:{ intros root' Hr. apply IH. exact Hr. }
   apply upd_row_good; [exact Ia|exact Da| |].
-  - intro cs. destruct (env_dup v); [|exact I]. destruct cs; simpl; [discriminate|exact I].
+  - intro cs. destruct (env_dup v); [|exact I]. destruct cs; simpl; exact I.
   - intros cs cs' Hc Hf. destruct (env_dup v).
-    + destruct cs as [|c r]; [discriminate Hf|]. injection Hf as <-.
+    + destruct cs as [|c r]; [injection Hf as <-; reflexivity|]. injection Hf as <-.
       cbn [forallb] in Hc |- *. rewrite copy_node_shape.
       apply andb_true_iff in Hc. destruct Hc as [Hc1 Hc2]. rewrite Hc1, Hc2. reflexivity.
     + injection Hf as <-. cbn [forallb]. rewrite Hc. reflexivity.
